@@ -9,6 +9,7 @@ NOTE = ("Trusted: go/ssa lowering, engine instruction semantics + listed stubs (
 CLAIMS = {
  "C01": ("§5 C01", "All protowire primitives encoded whole from go/ssa; every uint64/int64/uint32, every valid field number and 3-bit type, payloads<=4 bytes, prefix<=2 bytes: round trip, exact consumption, Size agreement, shortest varint, ZigZag/tag/bool bijection, group body recovery. Bounded model checking at full machine width, not a proof about arbitrary payload lengths."),
  "C02": ("§5 C02", "ConsumeField/ConsumeTag/ConsumeFieldValue/ConsumeGroup/consumeFieldValueD compared with a reference recursive-descent scanner written from the wire grammar (error classes included) on every byte string up to 5 bytes (7 thorough), plus structured long inputs (8..11-byte varints, 5..10-byte tags, 12-byte fields per wire type, group with a >=9-byte varint) that reach the 10th-varint-byte arms; small symbolic recursion limits; ParseError mapping for every int."),
+ "C43": ("§5 C43", "durationpb.AsDuration vs an exact 128-bit multiply-add-clamp specification for every (int64,int32) (cvc5 --solve-bv-as-int=sum); New(d).AsDuration()==d and validity for every int64 duration; both check() functions vs the documented ranges for every (int64,int32); timestamppb.New(t).AsTime() for every time.Time bit pattern with nsec<1e9 in both the wall-only and the monotonic encoding (real time.Unix/UTC/Equal SSA executed). One known finding (mixed-sign seconds/nanos with seconds*1e9 overflowing) is listed in known_findings.json."),
 }
 
 NA = {
